@@ -147,7 +147,7 @@ CHECKS["C04"] = {
     "units": [
         {"name": "lbseq", "pkg": "pkg/filters/proxy", "test": "TestVerifC04", "inject": [PROXYRIG], "instrument": C04INSTR},
         {"name": "lbsched", "pkg": "pkg/filters/proxy", "test": "TestVerifC04sched", "inject": [PROXYRIG, ["pkg/filters/proxy", "harness/C04/lbseq"]], "instrument": C04INSTR, "gomaxprocs": 1, "workers": 5},
-        {"name": "lbdiscovery", "pkg": "pkg/filters/proxy", "test": "TestVerifC04disc", "inject": [PROXYRIG]},
+        {"name": "lbdiscovery", "pkg": "pkg/filters/proxy", "test": "TestVerifC04disc", "inject": [PROXYRIG], "instrument": C04INSTR},
     ],
 }
 
